@@ -4,6 +4,7 @@ import (
 	"fmt"
 	"go/constant"
 	"go/token"
+	"go/types"
 	"os"
 	"strings"
 
@@ -147,32 +148,105 @@ func calleeOrClosure(call *ssa.Call) *ssa.Function {
 
 // everyIteration: in fn, the loop over `over` performs a call to callee on every
 // iteration (no conditional skip).
-func (c *Ctx) everyIteration(rule string, fn *ssa.Function, calleeID string, what string) {
+func (c *Ctx) everyIteration(rule string, fn *ssa.Function, calleeID, elemTypeID string, what string) {
 	if fn == nil {
 		return
 	}
-	var call *ssa.Call
-	instrsOf(fn, func(i ssa.Instruction) {
-		if cl, ok := i.(*ssa.Call); ok && ir.CallID(cl) == calleeID {
-			call = cl
-		}
-	})
-	if call == nil {
-		c.R.Undecf(rule, name(fn), "each:"+shortID(calleeID), c.Pos(fn.Pos()), what, "no call to "+shortID(calleeID)+" found")
-		return
+	// Wherever in the encoder's call cone the loop over the collection lives: a
+	// loop that indexes elements of the element type with its running index and
+	// hands the element to a call (the per-element encoder, under any name).
+	dv := c.deepViewOf(fn, 4)
+	construct := "each:" + shortID(calleeID)
+	type emitLoop struct {
+		fr    *frame
+		l     *natLoop
+		emits map[int]bool
+		at    ssa.Instruction
 	}
-	ok, det := false, "the call is not inside a loop"
-	for _, l := range naturalLoops(fn) {
-		if !l.body[call.Block().Index] {
+	var loops []emitLoop
+	doneFn := map[*ssa.Function]bool{}
+	for _, fr := range dv.framesInOrder() {
+		if doneFn[fr.fn] {
 			continue
 		}
-		if bodyAlwaysPasses(fn, l, map[int]bool{call.Block().Index: true}) {
-			ok = true
-		} else {
-			det = "an iteration of the loop can skip the call (conditional continue/filter)"
+		doneFn[fr.fn] = true
+		for _, l := range naturalLoops(fr.fn) {
+			// element accesses of the collection inside this loop
+			elems := map[ssa.Value]bool{}
+			for bi := range l.body {
+				for _, in := range fr.fn.Blocks[bi].Instrs {
+					var et types.Type
+					var idx ssa.Value
+					switch x := in.(type) {
+					case *ssa.IndexAddr:
+						if p, ok := x.Type().Underlying().(*types.Pointer); ok {
+							et, idx = p.Elem(), x.Index
+						}
+					case *ssa.Index:
+						et, idx = x.Type(), x.Index
+					}
+					if et == nil {
+						continue
+					}
+					if p, ok := et.Underlying().(*types.Pointer); ok {
+						et = p.Elem()
+					}
+					if ir.NamedTypeID(et) != elemTypeID {
+						continue
+					}
+					if _, isK := ir.ConstInt(idx); isK {
+						continue
+					}
+					elems[in.(ssa.Value)] = true
+				}
+			}
+			if len(elems) == 0 {
+				continue
+			}
+			el := emitLoop{fr: fr, l: l, emits: map[int]bool{}}
+			for bi := range l.body {
+				for _, in := range fr.fn.Blocks[bi].Instrs {
+					call, ok := in.(*ssa.Call)
+					if !ok {
+						continue
+					}
+					callee := calleeOrClosure2(call)
+					id := ir.CallID(call)
+					if !(callee != nil && c.P.InLib(callee)) && id != "encoding/binary.Write" {
+						continue
+					}
+					uses := false
+					for _, a := range ir.CallArgs(call) {
+						for v := range c.sliceOf(a) {
+							if elems[v] {
+								uses = true
+							}
+						}
+					}
+					if uses {
+						el.emits[bi] = true
+						el.at = call
+					}
+				}
+			}
+			if len(el.emits) > 0 {
+				loops = append(loops, el)
+			}
 		}
 	}
-	c.R.Check(ok, rule, name(fn), "each:"+shortID(calleeID), c.IPos(call), what, det)
+	if len(loops) == 0 {
+		c.R.Undecf(rule, name(fn), construct, c.Pos(fn.Pos()), what, "no loop that hands each element of the collection ("+shortID(elemTypeID)+") to an encoder call found in the call cone")
+		return
+	}
+	ok, det := true, ""
+	var at ssa.Instruction
+	for _, el := range loops {
+		at = el.at
+		if !bodyAlwaysPasses(el.fr.fn, el.l, el.emits) {
+			ok, det = false, "an iteration of the loop in "+name(el.fr.fn)+" can skip the call (conditional continue/filter)"
+		}
+	}
+	c.R.Check(ok, rule, name(fn), construct, c.IPos(at), what, det)
 }
 
 func checkC07(c *Ctx) {
@@ -237,8 +311,8 @@ func checkC07(c *Ctx) {
 		}
 	}
 	// every list / entry is written and every decoded list is kept
-	c.everyIteration("G8.all", c.Fn("G8.all", "efi/signature.WriteSignatureDatabase"), sigPkg+".WriteSignatureList", "the database encoder writes every list, in order")
-	c.everyIteration("G8.all", c.Fn("G8.all", "efi/signature.WriteSignatureList"), sigPkg+".WriteSignatureData", "the list encoder writes every entry, in order")
+	c.everyIteration("G8.all", c.Fn("G8.all", "efi/signature.WriteSignatureDatabase"), sigPkg+".WriteSignatureList", sigPkg+".SignatureList", "the database encoder writes every list, in order")
+	c.everyIteration("G8.all", c.Fn("G8.all", "efi/signature.WriteSignatureList"), sigPkg+".WriteSignatureData", sigPkg+".SignatureData", "the list encoder writes every entry, in order")
 	if db := c.Fn("G2.kept", "efi/signature.ReadSignatureDatabase"); db != nil {
 		c.usedResults("G2.kept", db)
 	}
